@@ -47,7 +47,19 @@ def opC12Alias (j : Json) : Except String Json := do
   pure (Json.mkObj [("aliased", Json.bool (isAliased (methodCollisions svc sigs) m)),
                     ("collisions", jarr ((methodCollisions svc sigs).map Json.str))])
 
+open Model.Names in
+def opC12SvcNames (j : Json) : Except String Json := do
+  let own ← (← getArrL j "own").mapM fun v => v.getStr?
+  let ms ← (← getArrL j "methods").mapM fun v => v.getStr?
+  let refs ← (← getArrL j "refs").mapM fun v => do
+    match (← v.getArr?).toList with
+    | [a, b] => pure ((← a.getStr?, ← b.getStr?) : Ref)
+    | _ => throw "ref: [module, package]"
+  let m ← (← j.getObjVal? "module").getStr?
+  let names := serviceNames own ms refs
+  pure (Json.mkObj [("names", jarr (names.map Json.str)), ("aliased", Json.bool (isAliased (methodCollisions names []) m))])
+
 def opsC12 : List (String × (Json → Except String Json)) :=
-  [("c12.names", opC12Names), ("c12.path", opC12Path), ("c12.file", opC12File), ("c12.snake", opC12Snake), ("c12.camel", opC12Camel), ("c12.alias", opC12Alias)]
+  [("c12.names", opC12Names), ("c12.path", opC12Path), ("c12.file", opC12File), ("c12.snake", opC12Snake), ("c12.camel", opC12Camel), ("c12.alias", opC12Alias), ("c12.svcnames", opC12SvcNames)]
 
 end GapicModel.Driver
